@@ -6,7 +6,7 @@ from collections import Counter
 
 import numpy as np
 
-from vf import cbmod, fakectx
+from vf import cbmod, coopctx, fakectx
 from vf.c01 import Checker as LinearBounds
 from vf.c06 import LowerBound as LogLowerBound
 from vf.common import CEIL, Violation
@@ -91,7 +91,9 @@ def run_case(case, expect_fault=False):
     extra = {"bonus": 2} if case.get("cb") == "kw" else {}
     obs = {"raised": None, "hang": False}
     res = None
-    with fakectx.Patched(sched, n_workers) as ctx:
+    coop = case.get("ctx") == "coop"
+    patched = coopctx.Patched(case["sched_seed"], case.get("policy", "random"), n_workers) if coop else fakectx.Patched(sched, n_workers)
+    with patched as ctx:
         try:
             res = helpers.parallel_add(arg_items, cb, n_workers=n_workers, **kw, **extra)
         except fakectx.Hang as e:
@@ -107,6 +109,9 @@ def run_case(case, expect_fault=False):
         obs["child_errors"] = list(ctx.child_errors)
         obs["polls"] = ctx.polls
         obs["worker_exitcodes"] = [p.exitcode for p in ctx.processes if p.name == "_worker"]
+        if coop:
+            obs["switches"] = ctx.sched.switches
+            obs["workers_used"] = len({w for w, _ in ctx.delivered})
     try:
         if obs["hang"]:
             raise Violation(f"parallel_add does not terminate: {obs['raised']}", "hang")
